@@ -6,6 +6,23 @@
 #include "coloquinte.hpp"
 
 namespace coloquinte {
+
+#ifdef COLOQUINTE_VERIF
+// Verification hook (compiled only with -DCOLOQUINTE_VERIF): call-outs at entry (phase 0) and exit (phase 1) of
+// NetModel::solveWithPenalty, so that a harness can observe the two parallel solves and force their completion order.
+namespace verif {
+extern void (*solveHook)(const void *model, int phase);
+struct SolveScope {
+  explicit SolveScope(const void *m) : model(m) {
+    if (solveHook) solveHook(model, 0);
+  }
+  ~SolveScope() {
+    if (solveHook) solveHook(model, 1);
+  }
+  const void *model;
+};
+}  // namespace verif
+#endif
 /**
  * Representation of the nets as 1D HPWL for global placement algorithms
  */
